@@ -399,6 +399,9 @@ fn do_create(
             if *w != pre {
                 rec.failures.push("create returned Err but changed the wallet".to_string());
             }
+            if let Err(m) = check_balance(w) {
+                rec.failures.push(format!("after a refused create: {}", m));
+            }
             // with enough eligible funds and no overflow the request must be served
             Ok(None)
         }
@@ -635,7 +638,8 @@ fn check_ledger(
     if reorganised && missing.is_empty() && extra.iter().all(|k| utxo.get(*k) == Some(&true) && key_bid(k) < low) {
         return Ok(());
     }
-    let only_stale = missing.is_empty() && extra.iter().all(|k| !key_fields_match(w, k));
+    // only the wallet's own outputs can be explained by stale coordinates after an unwind
+    let only_stale = missing.is_empty() && extra.iter().all(|k| k[0..33] == w.public_key && !key_fields_match(w, k));
     Err((only_stale, msg))
 }
 
@@ -1469,6 +1473,7 @@ fn case_raw(rng: &mut Rng, dbg: bool, len: usize, rt: &tokio::runtime::Runtime) 
                         if sim.w != pre {
                             sim.rec.failures.push("create_staking_transaction returned Err but changed the wallet".to_string());
                         }
+                        sim.after_step("create_staking_transaction (refused)", false);
                     }
                     Ok(Ok(tx)) => {
                         let mut rows = observe(&sim.w, &mut sim.tab);
